@@ -238,6 +238,10 @@ def b_set(interp, x=()):
 
 
 def b_dict(interp, *args, **kw):
+    if not args and not kw:
+        from .interp import PvDict
+
+        return PvDict()
     d = {}
     for a in args:
         if isinstance(a, dict):
